@@ -93,6 +93,9 @@ func c02ReadCells(rep *vlib.Report, f *fx, cfg string, b c02Blob, chunk int64, a
 	n := int64(len(b.data))
 	for _, path := range readPaths {
 		key := "C02 path=" + path
+		if strings.HasPrefix(cfg, "C20 ") {
+			key = "C20 read path=" + path
+		}
 		if !strings.HasPrefix(path, "bs") {
 			rd := f.read(path, b.hash, n, 0, 0)
 			c02Check(rep, fmt.Sprintf("%s blob=%s path=%s", cfg, b.name, path), key, b.data, 0, 0, rd, true, true)
